@@ -15,7 +15,7 @@ def shape_key(m):
 def run(rep, tier, seed):
     rng = random.Random(seed * 1000003 + 4)
     quick = tier == "quick"
-    n = 1500 if quick else 30000
+    n = 5000 if quick else 30000
     mg_small = GM.ModelGen(rng, 3, 5, 8)
     mg_big = GM.ModelGen(rng, 6, 14, 40)
     items = []
